@@ -152,6 +152,13 @@ def step (l : Line) : Verdict :=
     else
       -- a failed build is fine for a name that cannot be passed safely; a plain name must build
       if safeName svc then .diff "built=true" else .ok
+  | "opbuild" =>
+    -- the operator's build request through the teamserver: whatever the architecture, format and service name strings
+    -- are, none of them is run by a shell
+    if kv "marker" l.impl == some "true" then
+      .specFail "C13.shell-injection" s!"a build request with architecture {repr (String.ofList ((str l.args "arch").map Char.ofNat))} / format {repr (String.ofList ((str l.args "format").map Char.ofNat))} / service name {repr (String.ofList ((str l.args "svc").map Char.ofNat))} made the teamserver's shell run a command of the operator's text (marker file created)"
+    else if (kv "run" l.impl).map (·.startsWith "done") != some true then .bad s!"opbuild: {joinSp l.impl}"
+    else .ok
   | _ => .bad s!"unknown operation {l.op}"
 
 end Havoc.DriverC13
